@@ -26,6 +26,9 @@ pub struct Case {
     /// HTTP/3 connections (quiche clients) held open during the scrape
     #[serde(default)]
     pub h3_sessions: u8,
+    /// HTTP/3 connections with a CONNECT tunnel that echoes `payload` bytes (held open during the scrape)
+    #[serde(default)]
+    pub h3_tunnels: u8,
 }
 
 async fn http_get(addr: std::net::SocketAddr, path: &str, form: u8) -> Result<(u16, Vec<u8>), String> {
@@ -61,11 +64,11 @@ impl Suite for EndpointSuite {
         "metrics-endpoint"
     }
     fn rule(&self) -> String {
-        "the real Core::listen with a metrics listener on a loopback port; 0-2 HTTP/1.1 tunnels, 0-2 HTTP/2 sessions with 0-3 tunnels (in memory, echo destinations, a generated number of bytes through each), 0-2 HTTP/3 connections of quiche clients over the real QUIC listener; then GET /health-check and GET /metrics over TCP (request in one write, byte by byte, or with a scraper's headers); oracle: /health-check answers 200; /metrics answers 200 with a body that parses as Prometheus text and carries client_sessions per protocol = the live sessions, traffic bytes = the bytes echoed (within 4 s; the destinations are in-memory peers, so outbound_tcp_sockets stays 0), and equals what the metrics door reports; an unknown path is not answered 200; after all clients have left client_sessions sums to 0 within 4 s; non-trivial = at least one live tunnel".into()
+        "the real Core::listen with a metrics listener on a loopback port; 0-2 HTTP/1.1 tunnels, 0-2 HTTP/2 sessions with 0-3 tunnels (in memory, echo destinations, a generated number of bytes through each), 0-1 idle HTTP/3 connections and 0-2 HTTP/3 connections with a CONNECT tunnel (echoing the same number of bytes) of quiche clients over the real QUIC listener; then GET /health-check and GET /metrics over TCP (request in one write, byte by byte, or with a scraper's headers); oracle: /health-check answers 200; /metrics answers 200 with a body that parses as Prometheus text and carries client_sessions per protocol = the live sessions, traffic bytes = the bytes echoed, series by series (every protocol's inbound and outbound series = its tunnels x the payload) (within 4 s; the destinations are in-memory peers, so outbound_tcp_sockets stays 0), and equals what the metrics door reports; an unknown path is not answered 200; after all clients have left client_sessions sums to 0 within 4 s; non-trivial = at least one live tunnel".into()
     }
     fn strategy(&self, _: Tier) -> BoxedStrategy<Case> {
-        (0u8..3, 0u8..3, 0u8..4, 1u16..5000, 0u8..3, 0u8..3)
-            .prop_map(|(h1_tunnels, h2_sessions, h2_tunnels, payload, request_form, h3_sessions)| Case { h1_tunnels, h2_sessions, h2_tunnels, payload, request_form, h3_sessions })
+        (0u8..3, 0u8..3, 0u8..4, 1u16..5000, 0u8..3, 0u8..6)
+            .prop_map(|(h1_tunnels, h2_sessions, h2_tunnels, payload, request_form, h3_sessions)| Case { h1_tunnels, h2_sessions, h2_tunnels, payload, request_form, h3_sessions: h3_sessions % 2, h3_tunnels: (h3_sessions / 2).min(2) })
             .boxed()
     }
     fn cases(&self, tier: Tier) -> u64 {
@@ -85,6 +88,26 @@ impl Suite for EndpointSuite {
         vec!["nontrivial", "request-byte-by-byte"]
     }
     fn check(&self, c: &Case) -> Verdict {
+        let c = c.clone();
+        let debug_log = std::env::var("VERIF_DEBUG_LOG").is_ok();
+        if debug_log {
+            crate::engine::logcap::start();
+        }
+        let r = self.check_inner(&c);
+        if debug_log {
+            let logs = crate::engine::logcap::stop();
+            if r.is_err() {
+                for l in logs.iter().filter(|l| !l.contains("rustls")).rev().take(120).collect::<Vec<_>>().into_iter().rev() {
+                    eprintln!("LOG {}", l);
+                }
+            }
+        }
+        r
+    }
+}
+
+impl EndpointSuite {
+    fn check_inner(&self, c: &Case) -> Verdict {
         let c = c.clone();
         aio::block_on_real(async move {
             let mport = match crate::engine::proc::free_port() {
@@ -172,7 +195,20 @@ impl Suite for EndpointSuite {
                     return viol("harness:quic-client", "an HTTP/3 client did not get ready");
                 }
             }
-            let what = format!("{} HTTP/1.1 tunnels, {} HTTP/2 sessions with {} tunnels each, {} bytes echoed per tunnel, {} HTTP/3 connections", c.h1_tunnels, c.h2_sessions, c.h2_tunnels, c.payload, c.h3_sessions);
+            // HTTP/3 connections with a tunnel each, echoing the payload
+            let mut h3_tunnel_tasks = vec![];
+            for _ in 0..c.h3_tunnels {
+                let headers = vec![
+                    (b":method".to_vec(), b"CONNECT".to_vec()),
+                    (b":authority".to_vec(), b"d.example:443".to_vec()),
+                    (b"proxy-authorization".to_vec(), auth.clone().into_bytes()),
+                ];
+                let script = crate::engine::quic::TunnelScript { up: if payload.is_empty() { vec![] } else { vec![payload.clone()] }, fin: false };
+                let (stop_tx, stop_rx) = tokio::sync::oneshot::channel();
+                let addr = net.addr;
+                h3_tunnel_tasks.push((stop_tx, tokio::spawn(async move { crate::engine::quic::h3_tunnel(addr, "main.x", headers, script, stop_rx, Duration::from_secs(12)).await })));
+            }
+            let what = format!("{} HTTP/1.1 tunnels, {} HTTP/2 sessions with {} tunnels each, {} HTTP/3 connections with a tunnel, {} bytes echoed per tunnel, {} idle HTTP/3 connections", c.h1_tunnels, c.h2_sessions, c.h2_tunnels, c.h3_tunnels, c.payload, c.h3_sessions);
             // ---- the listener
             let (st, _) = match http_get(maddr, "/health-check", c.request_form).await {
                 Ok(x) => x,
@@ -199,9 +235,15 @@ impl Suite for EndpointSuite {
                 let sessions_h3 = g("client_sessions", "\"http3\"");
                 let tcp = g("outbound_tcp_sockets", "");
                 let traffic = g("inbound_traffic_bytes", "") + g("outbound_traffic_bytes", "");
-                let want_traffic = 2.0 * tunnels as f64 * c.payload as f64;
+                let want_traffic = 2.0 * (tunnels + c.h3_tunnels as u64) as f64 * c.payload as f64;
+                // every series by itself: the payload is echoed, so both directions of a protocol carry
+                // tunnels x payload bytes, whichever direction a series is meant to count
+                let per_series = [("http1", c.h1_tunnels as u64), ("http2", h2_tunnels), ("http3", c.h3_tunnels as u64)].iter().all(|(p, n)| {
+                    let want = (*n * c.payload as u64) as f64;
+                    g("inbound_traffic_bytes", &format!("\"{}\"", p)) == want && g("outbound_traffic_bytes", &format!("\"{}\"", p)) == want
+                });
                 // (the destinations are in-memory peers of the scripted forwarder: no outbound socket exists)
-                let ok = sessions_h1 == c.h1_tunnels as f64 && sessions_h2 == c.h2_sessions as f64 && sessions_h3 == c.h3_sessions as f64 && tcp == 0.0 && traffic == want_traffic;
+                let ok = sessions_h1 == c.h1_tunnels as f64 && sessions_h2 == c.h2_sessions as f64 && sessions_h3 == (c.h3_sessions + c.h3_tunnels) as f64 && tcp == 0.0 && traffic == want_traffic && per_series;
                 if ok {
                     // and it is the same text the door reports (modulo values still moving)
                     let door = parse_prometheus(&net.world.core.verif_metrics_text());
@@ -219,8 +261,9 @@ impl Suite for EndpointSuite {
                     return viol(
                         "metrics-endpoint:values",
                         format!(
-                            "{}: GET /metrics reports client_sessions http1={} http2={} http3={}, outbound_tcp_sockets={}, traffic bytes={} (want {} / {} / {} / 0 / {})",
-                            what, sessions_h1, sessions_h2, sessions_h3, tcp, traffic, c.h1_tunnels, c.h2_sessions, c.h3_sessions, want_traffic
+                            "{}: GET /metrics reports client_sessions http1={} http2={} http3={}, outbound_tcp_sockets={}, traffic bytes={} (want {} / {} / {} / 0 / {}); traffic series: {:?} (want {} bytes per tunnel in either direction of its protocol)",
+                            what, sessions_h1, sessions_h2, sessions_h3, tcp, traffic, c.h1_tunnels, c.h2_sessions, c.h3_sessions + c.h3_tunnels, want_traffic,
+                            s.iter().filter(|(k, _)| k.contains("traffic_bytes")).collect::<Vec<_>>(), c.payload
                         ),
                     );
                 }
@@ -228,6 +271,12 @@ impl Suite for EndpointSuite {
             }
             drop(keep_h1);
             drop(keep_h2);
+            for (stop, task) in h3_tunnel_tasks {
+                let _ = stop.send(());
+                if let Ok(seen) = task.await {
+                    ensure!(seen.status == Some(200) && seen.down == payload, "harness:echo", "no echo on an HTTP/3 tunnel (status {:?}, {} of {} bytes, {:?})", seen.status, seen.down.len(), payload.len(), seen.error);
+                }
+            }
             // everybody leaves: the session gauges return to zero
             let _ = go_tx.send(Some(tokio::time::Instant::now()));
             for t in h3_tasks {
